@@ -1,8 +1,10 @@
 ------------------------------- MODULE RoSem -------------------------------
 (***************************************************************************)
 (* Denotational semantics of rsome.ro models on a grid-exact family        *)
-(* (integer data, uncertainty sets given by vertex lists or by a 2-norm    *)
-(* ball compared in squares, integer decision grid).                       *)
+(* (integer data, uncertainty sets given by vertex lists, by a 2-norm ball *)
+(* / ellipse compared in squares, or - convex sets with a transcendental   *)
+(* boundary - by an INNER and an OUTER integer polygon (RoSets.tla);       *)
+(* integer decision grid).                                                 *)
 (*                                                                         *)
 (* A declared model is                                                     *)
 (*    x in [-XB, XB]^2 (continuous or integer), optionally one decision    *)
@@ -16,8 +18,19 @@
 (* validator: the Solved step takes the values the real library returned   *)
 (* (scaled integers) and the post-condition of C01/C02 is evaluated by TLC *)
 (* at EVERY vertex of every set.                                           *)
+(*                                                                         *)
+(* Sandwich sets (kind "sand"): max_{z in S} affine cannot be decided      *)
+(* exactly; every worst-case operator takes a SIDE:                        *)
+(*   "in"   over conv Inner(s), a subset of S:  a violation found there is *)
+(*          a violation at a member of S (C01 post-conditions);            *)
+(*   "out"  over conv Outer(s), a superset of S: a grid point feasible     *)
+(*          there is feasible for S and its worst case bounds the true one *)
+(*          (grid oracle: reported <= gridOpt, one-sided, C02).            *)
+(* Vertex coordinates are integers scaled by ZD; all worst-case VALUES are *)
+(* carried scaled by ZD (ZD = 1 unless the run uses a sandwich set, so     *)
+(* that polytope-only runs and Rewrite.tla are unchanged).                 *)
 (***************************************************************************)
-EXTENDS Integers, Sequences, FiniteSets, TLC, FiniteSetsExt, SequencesExt, Json
+EXTENDS Integers, Sequences, FiniteSets, TLC, FiniteSetsExt, SequencesExt, Json, RoSets
 
 CONSTANTS XB,          \* decision box / grid radius
           YB,          \* grid radius for decision-rule coefficients
@@ -36,14 +49,24 @@ NZ == 2
 Comps == 1..NZ
 
 -----------------------------------------------------------------------------
-(* Set catalogue: vertex lists (polytopes) or a centred 2-norm ball of radius R (R2 = R^2). *)
+(* Set catalogue: vertex lists (polytopes), quadrics {(z-c)' diag(1/w) (z-c) <= 1} decided    *)
+(* exactly in squares (kind "ball": 2-norm balls, an axis-aligned ellipse, a shifted ball),   *)
+(* or sandwich polygons (kind "sand", module RoSets).                                        *)
 (* The H-representation handed to rsome lives in harness/ro_catalogue.py; it is checked      *)
-(* against these vertex lists in every run (CatalogueSound, harness side).                   *)
+(* against these vertex lists / quadrics / polygons in every run (CatalogueSound, harness).  *)
 
 Box(l1, u1, l2, u2) == {<<a, b>> : a \in {l1, u1}, b \in {l2, u2}}
 
-SetKind(s) == IF s \in {13, 14} THEN "ball" ELSE "poly"
-BallR2(s) == CASE s = 13 -> 1 [] s = 14 -> 4
+QuadricSets == {13, 14, 28, 36}
+SetKind(s) == IF s \in QuadricSets THEN "ball" ELSE IF s \in SandSets THEN "sand" ELSE "poly"
+BallR2(s) == CASE s = 13 -> 1 [] s = 14 -> 4 [] OTHER -> 0
+\* squared semi-axes and centre: max g0 + g.z = g0 + g.c + sqrt(w1 g1^2 + w2 g2^2)
+BallW(s) == CASE s = 13 -> <<1, 1>> [] s = 14 -> <<4, 4>> [] s = 28 -> <<4, 1>> [] s = 36 -> <<1, 1>>
+BallC(s) == CASE s = 36 -> <<1, 0>> [] OTHER -> <<0, 0>>
+
+\* scale of the vertex coordinates and of every worst-case value (an operator, not a constant)
+ZD == IF SetIds \cap SandSets = {} THEN 1 ELSE SandZD
+Sides == {"in", "out"}
 
 Vert(s) ==
     CASE s = 1  -> Box(-1, 1, -1, 1)          \* bounds objects
@@ -63,7 +86,15 @@ Vert(s) ==
       [] s = 17 -> Box(1, 1, -1, 1)           \* first component fixed by bounds lb = ub = 1
       [] s = 18 -> Box(-3, -1, 1, 2)          \* negative finite bounds / positive finite bounds
       [] s = 19 -> {<<0, 0>>, <<2, 0>>, <<0, 2>>}  \* z >= 0, sum z <= 2 (inequality row + sign bounds)
+      [] s = 34 -> {<<-1, 2>>, <<0, 1>>}      \* exp(z1) <= z2, z1 + z2 == 1, z1 >= -1: on the line e^a <= 1 - a <=> a <= 0
+      [] s = 37 -> Box(0, 1, -1, 1)           \* a sign-restricted component (bound exactly 0) next to one with non-zero bounds
+      [] s = 38 -> Box(-2, 0, 1, 3)           \* non-positive component next to a positive one
       [] OTHER  -> {}
+
+\* vertices of set s on a side, scaled by ZD (polytopes: both sides are the polytope)
+VZ(s, side) ==
+    IF SetKind(s) = "sand" THEN (IF side = "in" THEN Inner(s) ELSE Outer(s))
+    ELSE {<<ZD * v[1], ZD * v[2]>> : v \in Vert(s)}
 
 -----------------------------------------------------------------------------
 (* Coefficient templates.  LHS(z) = sum_i (a_i + sum_k A_ik z_k) x_i + c*y(z) + b + sum_k B_k z_k *)
@@ -113,62 +144,91 @@ LhsAt(tm, x, y, z, sc) == G0(tm, x, y) + sc * tm.b
                           + (Gk(tm, x, y, 1) + sc * tm.B[1]) * z[1]
                           + (Gk(tm, x, y, 2) + sc * tm.B[2]) * z[2]
 
-\* worst case of the affine function g0 + g.z over set s, compared with 0:  max <= tol ?
-\* polytope: at every vertex; ball: g0 <= tol and R^2 |g|^2 <= (tol - g0)^2
-MaxLeq(s, g0, g1, g2, tol) ==
-    IF SetKind(s) = "poly"
-    THEN \A z \in Vert(s) : g0 + g1 * z[1] + g2 * z[2] <= tol
-    ELSE /\ g0 <= tol
-         /\ BallR2(s) * (g1 * g1 + g2 * g2) <= (tol - g0) * (tol - g0)
+\* worst case of the affine function g0 + g.z over set s (on a side), compared with 0:  max <= tol ?
+\* polytope / sandwich polygon: at every vertex (coordinates scaled by ZD);
+\* quadric: h0 = g0 + g.c <= tol and w1 g1^2 + w2 g2^2 <= (tol - h0)^2  (exact, the side is irrelevant)
+MaxLeqS(s, side, g0, g1, g2, tol) ==
+    IF SetKind(s) = "ball"
+    THEN LET h0 == g0 + g1 * BallC(s)[1] + g2 * BallC(s)[2] IN
+         /\ h0 <= tol
+         /\ BallW(s)[1] * g1 * g1 + BallW(s)[2] * g2 * g2 <= (tol - h0) * (tol - h0)
+    ELSE \A z \in VZ(s, side) : ZD * g0 + g1 * z[1] + g2 * z[2] <= ZD * tol
 
-RowHolds(r, dset, x, y, sc, tol) ==
+MaxLeq(s, g0, g1, g2, tol) == MaxLeqS(s, "out", g0, g1, g2, tol)
+
+RowHoldsS(r, dset, side, x, y, sc, tol) ==
     LET tm == Template(r.t)
         s == IF r.set = 0 THEN dset ELSE r.set
         g0 == G0(tm, x, y) + sc * tm.b
         g1 == Gk(tm, x, y, 1) + sc * tm.B[1]
         g2 == Gk(tm, x, y, 2) + sc * tm.B[2]
-    IN CASE r.sense = "le" -> MaxLeq(s, g0, g1, g2, tol)
-         [] r.sense = "ge" -> MaxLeq(s, -g0, -g1, -g2, tol)
-         [] r.sense = "eq" -> MaxLeq(s, g0, g1, g2, tol) /\ MaxLeq(s, -g0, -g1, -g2, tol)
+    IN CASE r.sense = "le" -> MaxLeqS(s, side, g0, g1, g2, tol)
+         [] r.sense = "ge" -> MaxLeqS(s, side, -g0, -g1, -g2, tol)
+         [] r.sense = "eq" -> MaxLeqS(s, side, g0, g1, g2, tol) /\ MaxLeqS(s, side, -g0, -g1, -g2, tol)
+RowHolds(r, dset, x, y, sc, tol) == RowHoldsS(r, dset, "out", x, y, sc, tol)
 
 \* the decision rule is boxed on the default set: -XB <= y(z) <= XB
-YBoxHolds(p, y, sc, tol) ==
+YBoxHoldsS(p, side, y, sc, tol) ==
     p.mask = "none" \/
-    /\ MaxLeq(p.dset, y[1] - sc * XB, y[2], y[3], tol)
-    /\ MaxLeq(p.dset, -y[1] - sc * XB, -y[2], -y[3], tol)
+    /\ MaxLeqS(p.dset, side, y[1] - sc * XB, y[2], y[3], tol)
+    /\ MaxLeqS(p.dset, side, -y[1] - sc * XB, -y[2], -y[3], tol)
+YBoxHolds(p, y, sc, tol) == YBoxHoldsS(p, "out", y, sc, tol)
 
 MaskOK(p, y) == /\ (1 \notin MaskSet(p.mask) => y[2] = 0)
                 /\ (2 \notin MaskSet(p.mask) => y[3] = 0)
                 /\ (p.mask = "none" => y[1] = 0)
 
-Feasible(p, x, y, sc, tol) ==
-    /\ \A i \in 1..Len(p.rows) : RowHolds(p.rows[i], p.dset, x, y, sc, tol)
-    /\ YBoxHolds(p, y, sc, tol)
+FeasibleS(p, side, x, y, sc, tol) ==
+    /\ \A i \in 1..Len(p.rows) : RowHoldsS(p.rows[i], p.dset, side, x, y, sc, tol)
+    /\ YBoxHoldsS(p, side, y, sc, tol)
+Feasible(p, x, y, sc, tol) == FeasibleS(p, "out", x, y, sc, tol)
 
-\* objective: worst case over the default set (polytopes only for robust objectives)
+\* objective: worst case over the default set (polytopes and sandwich sets for robust objectives).
+\* ObjAtZ / WorstObjS carry the value scaled by ZD (vertex Z scaled by ZD).
 ObjAt(p, x, y, z, sc) == LhsAt(Template(p.obj), x, y, z, sc)
+ObjAtZ(p, x, y, Z, sc) ==
+    LET tm == Template(p.obj) IN
+    ZD * (G0(tm, x, y) + sc * tm.b) + (Gk(tm, x, y, 1) + sc * tm.B[1]) * Z[1]
+                                    + (Gk(tm, x, y, 2) + sc * tm.B[2]) * Z[2]
 Minimising(p) == p.osense \in {"min", "minmax"}
-WorstObj(p, x, y, sc) ==
+\* for a minimiser the worst case is the max over the side's polygon: side "in" bounds it from below,
+\* side "out" from above (mirrored for a maximiser)
+WorstObjS(p, side, x, y, sc) ==
     IF p.osense \in {"min", "max"}
-    THEN ObjAt(p, x, y, <<0, 0>>, sc)
-    ELSE IF Minimising(p) THEN Max({ObjAt(p, x, y, z, sc) : z \in Vert(p.dset)})
-                          ELSE Min({ObjAt(p, x, y, z, sc) : z \in Vert(p.dset)})
+    THEN ZD * ObjAt(p, x, y, <<0, 0>>, sc)
+    ELSE IF Minimising(p) THEN Max({ObjAtZ(p, x, y, Z, sc) : Z \in VZ(p.dset, side)})
+                          ELSE Min({ObjAtZ(p, x, y, Z, sc) : Z \in VZ(p.dset, side)})
+WorstObj(p, x, y, sc) == WorstObjS(p, "out", x, y, sc)
 
 Grid == (-XB)..XB
 YGrid(p) == {y \in ((-YB)..YB) \X ((-YB)..YB) \X ((-YB)..YB) : MaskOK(p, y)}
-FeasGrid(p) == {xy \in (Grid \X Grid) \X YGrid(p) : Feasible(p, xy[1], xy[2], 1, 0)}
+\* = {xy \in (Grid \X Grid) \X YGrid(p) : FeasibleS(p, side, xy[1], xy[2], 1, 0)}, the box of the rule (which does
+\* not depend on x) filtered first
+FeasGridS(p, side) ==
+    LET YS == {y \in YGrid(p) : YBoxHoldsS(p, side, y, 1, 0)} IN
+    {xy \in (Grid \X Grid) \X YS :
+        \A i \in 1..Len(p.rows) : RowHoldsS(p.rows[i], p.dset, side, xy[1], xy[2], 1, 0)}
+FeasGrid(p) == FeasGridS(p, "out")
 
-\* exact optimum over the integer grid: an upper (lower for max) bound on the true optimum,
-\* and THE optimum when the decisions are integer and there is no decision rule
-GridOpt(p) ==
-    LET F == FeasGrid(p) IN
+\* optimum over the integer grid on a side (value scaled by ZD).
+\* side "out": every feasible grid point is feasible for the true set and its value bounds the true worst case:
+\*   an upper (lower for max) bound on the true optimum;
+\* side "in" (integer decisions, no decision rule): a lower (upper for max) bound on the true optimum.
+\* Polytopes / quadrics: the sides coincide; THE optimum when the decisions are integer and there is no rule.
+GridOptS(p, side) ==
+    LET F == FeasGridS(p, side) IN
     IF F = {} THEN [feasible |-> FALSE, val |-> 0]
     ELSE [feasible |-> TRUE,
-          val |-> IF Minimising(p) THEN Min({WorstObj(p, xy[1], xy[2], 1) : xy \in F})
-                                   ELSE Max({WorstObj(p, xy[1], xy[2], 1) : xy \in F})]
+          val |-> IF Minimising(p) THEN Min({WorstObjS(p, side, xy[1], xy[2], 1) : xy \in F})
+                                   ELSE Max({WorstObjS(p, side, xy[1], xy[2], 1) : xy \in F})]
+GridOpt(p) == GridOptS(p, "out")
 
 -----------------------------------------------------------------------------
 (* The family *)
+
+ProgSets(p) == {p.dset} \cup {p.rows[i].set : i \in {j \in 1..Len(p.rows) : p.rows[j].set # 0}}
+ExpSets == {23, 24, 25, 26, 29, 30, 31, 34}
+UsesSand(p) == \E s \in ProgSets(p) : SetKind(s) = "sand"
 
 RowSet(p) == {[t |-> t, sense |-> sn, set |-> s] :
                  t \in RowTemplates, sn \in Senses, s \in SetIds \cup {0}}
@@ -180,20 +240,34 @@ WellFormed(p) ==
           /\ (~UsesZ(p.rows[i].t) => p.rows[i].set = 0)          \* deterministic rows carry no set
     /\ (UsesY(p.obj) => p.mask # "none")
     /\ (p.osense \in {"min", "max"} <=> ~UsesZ(p.obj))
-    /\ (SetKind(p.dset) = "ball" => p.osense \in {"min", "max"}) \* robust objectives over polytopes
+    /\ (SetKind(p.dset) = "ball" => p.osense \in {"min", "max"}) \* robust objectives over polytopes / sandwich sets
     \* rsome resolves set 0 to the default: it must exist
     /\ p.dset \in SetIds
-    \* lifted set (12) brings two extra random components: not mixed with other own sets
-    /\ (\E i \in 1..Len(p.rows) : p.rows[i].set = 12) => p.dset = 12
-    /\ (p.dset = 12 => \A i \in 1..Len(p.rows) : p.rows[i].set \in {0, 12})
+    \* lifted sets (12, 26) bring two extra random components: not mixed with other own sets
+    /\ \A L \in {12, 26} :
+          /\ (\E i \in 1..Len(p.rows) : p.rows[i].set = L) => p.dset = L
+          /\ (p.dset = L => \A i \in 1..Len(p.rows) : p.rows[i].set \in {0, L})
+    \* sets described with exponential cones (KL, entropy, exp, log, softplus, real p-norm degree) are solved by ECOS
+    \* only, whose branch-and-bound is not usable (hangs on infeasible programs): continuous decisions there
+    /\ (ProgSets(p) \cap ExpSets # {} => ~p.xint)
+    \* a program uses at most ONE curved set (sandwich or quadric), next to polytopes
+    /\ Cardinality(ProgSets(p) \ {s \in ProgSets(p) : SetKind(s) = "poly"}) <= 1
     \* decision rules need an integer-free model (rsome: LDR coefficients are continuous; fine)
     /\ (p.mask # "none" => ~p.xint)
 
 RowSeqs == UNION {[1..n -> RowSet(0)] : n \in 1..MaxRows}
 
+\* p.arr: the two rows are posted as ONE 2-row ARRAY constraint (one constraint object: same sense, same set).
+\* An array constraint denotes its rows, so no operator of the semantics reads the field; it selects the code path of
+\* vector-valued robust constraints (the robust counterpart lays its dual block out row by row).
+ArrChoices == IF MaxRows >= 2 THEN BOOLEAN ELSE {FALSE}
+ArrOK(p) == p.arr => /\ Len(p.rows) = 2
+                     /\ p.rows[1].sense = p.rows[2].sense
+                     /\ p.rows[1].set = p.rows[2].set
+
 Programs ==
     {p \in [xint : IntChoices, mask : Masks, rows : RowSeqs, osense : OSenses,
-            obj : ObjTemplates, dset : SetIds] : WellFormed(p)}
+            obj : ObjTemplates, dset : SetIds, arr : ArrChoices] : WellFormed(p) /\ ArrOK(p)}
 
 VARIABLES prog, res
 vars == <<prog, res>>
@@ -209,24 +283,45 @@ Spec == Init /\ [][Next]_vars
 -----------------------------------------------------------------------------
 (* Generator mode: export every program with its exact grid optimum *)
 
+\* gridOpt / gridOptIn are scaled by zd.  The "in" side differs from the "out" side only for programs that use a
+\* sandwich set, and is a bound on the optimum only for integer decisions without decision rule.
 Rec(p) ==
-    LET g == GridOpt(p) IN
+    LET g == GridOpt(p)
+        gi == IF UsesSand(p) /\ p.xint /\ p.mask = "none" THEN GridOptS(p, "in") ELSE g IN
     [prog |-> p,
      rows |-> [i \in 1..Len(p.rows) |-> Template(p.rows[i].t)],
      objT |-> Template(p.obj),
      verts |-> [s \in SetIds |-> IF SetKind(s) = "poly" THEN SetToSeq(Vert(s)) ELSE <<>>],
      ballR2 |-> [s \in SetIds |-> IF SetKind(s) = "ball" THEN BallR2(s) ELSE 0],
-     gridFeasible |-> g.feasible, gridOpt |-> g.val]
+     zd |-> ZD, sand |-> UsesSand(p),
+     gridFeasible |-> g.feasible, gridOpt |-> g.val,
+     gridFeasibleIn |-> gi.feasible, gridOptIn |-> gi.val]
 
 Export == res.tid # 0 \/ PrintT(ToJson(Rec(prog)))
 
-\* oracle self-check: a vertex list is not empty and the box of decisions is consistent
-OracleSane == \A s \in SetIds : SetKind(s) = "poly" => Vert(s) # {}
+\* the catalogue as TLC uses it, exported once per run (ASSUME in the model) for CatalogueSound (harness side)
+CatRec ==
+    [cat |-> TRUE, zd |-> ZD,
+     verts |-> [s \in SetIds |-> IF SetKind(s) = "poly" THEN SetToSeq(Vert(s)) ELSE <<>>],
+     vin   |-> [s \in SetIds |-> IF SetKind(s) = "sand" THEN SetToSeq(Inner(s)) ELSE <<>>],
+     vout  |-> [s \in SetIds |-> IF SetKind(s) = "sand" THEN SetToSeq(Outer(s)) ELSE <<>>],
+     quadrics |-> [s \in SetIds |-> IF SetKind(s) = "ball" THEN [c |-> BallC(s), w |-> BallW(s)] ELSE [c |-> <<>>, w |-> <<>>]]]
+\* (with a parameter: TLC evaluates constant-level definitions WITHOUT parameters at start-up, in every model that
+\* extends this module; the generator model says ASSUME ExportCat(0))
+ExportCat(once) == PrintT(ToJson(CatRec))
+
+\* oracle self-check: a vertex list is not empty, both polygons of a sandwich set exist and fit TLC's integers
+OracleSane == /\ \A s \in SetIds : SetKind(s) = "poly" => Vert(s) # {}
+              /\ \A s \in SetIds : SetKind(s) = "sand" =>
+                    /\ Inner(s) # {} /\ Outer(s) # {}
+                    /\ \A z \in Inner(s) \cup Outer(s) : \A k \in 1..2 : z[k] <= 3 * ZD /\ z[k] >= -3 * ZD
 
 -----------------------------------------------------------------------------
 (* Validator mode (code -> spec): post-condition of C01 / C02 on what the library returned.   *)
-(* Results[k] = [prog, status ("ok"|"fail"), x, y, obj (scaled by SC), tolx (scaled), gridOpt, *)
-(* gridFeasible].                                                                              *)
+(* Results[k] = [prog, status ("ok"|"fail"), x, y, obj (scaled by SC), tol (scaled), gridOpt,  *)
+(* gridFeasible, gridOptIn, gridFeasibleIn (grid values scaled by ZD)].                        *)
+(* Side "in" for what must hold at every member of the set (C01), the "out" grid optimum as    *)
+(* one-sided bound (C02), the "in" grid optimum as the opposite bound for integer programs.    *)
 
 Res == res
 
@@ -235,24 +330,30 @@ Res == res
 RowTol(tm) == Res.tol
 PostFeasible ==
     /\ \A i \in 1..Len(prog.rows) :
-          RowHolds(prog.rows[i], prog.dset, Res.x, Res.y, SC, RowTol(Template(prog.rows[i].t)))
-    /\ YBoxHolds(prog, Res.y, SC, RowTol(0))
+          RowHoldsS(prog.rows[i], prog.dset, "in", Res.x, Res.y, SC, RowTol(Template(prog.rows[i].t)))
+    /\ YBoxHoldsS(prog, "in", Res.y, SC, RowTol(0))
     /\ \A i \in 1..2 : Res.x[i] <= SC * XB + Res.tol /\ Res.x[i] >= -SC * XB - Res.tol
 PostMask == /\ (1 \notin MaskSet(prog.mask) => Res.y[2] = 0)
             /\ (2 \notin MaskSet(prog.mask) => Res.y[3] = 0)
-PostObjSafe ==   \* reported objective bounds the worst case at the returned solution
-    IF Minimising(prog) THEN Res.obj >= WorstObj(prog, Res.x, Res.y, SC) - RowTol(0)
-                        ELSE Res.obj <= WorstObj(prog, Res.x, Res.y, SC) + RowTol(0)
-PostObjTight ==  \* ... and is no worse than the best grid point (exactness, one-sided)
+PostObjSafe ==   \* reported objective bounds the worst case (over members of the set) at the returned solution
+    IF Minimising(prog) THEN ZD * Res.obj >= WorstObjS(prog, "in", Res.x, Res.y, SC) - ZD * RowTol(0)
+                        ELSE ZD * Res.obj <= WorstObjS(prog, "in", Res.x, Res.y, SC) + ZD * RowTol(0)
+PostObjTight ==  \* ... and is no worse than the best grid point (exactness, one-sided; "out" side)
     Res.gridFeasible =>
-        IF Minimising(prog) THEN Res.obj <= SC * Res.gridOpt + RowTol(0)
-                            ELSE Res.obj >= SC * Res.gridOpt - RowTol(0)
-PostObjExact ==  \* all-integer models without decision rule: equality
-    (prog.xint /\ prog.mask = "none" /\ Res.gridFeasible) =>
-        /\ Res.obj <= SC * Res.gridOpt + RowTol(0)
-        /\ Res.obj >= SC * Res.gridOpt - RowTol(0)
+        IF Minimising(prog) THEN ZD * Res.obj <= SC * Res.gridOpt + ZD * RowTol(0)
+                            ELSE ZD * Res.obj >= SC * Res.gridOpt - ZD * RowTol(0)
+PostObjExact ==  \* all-integer models without decision rule: equality (sandwich sets: gridOptIn <= . <= gridOpt)
+    (prog.xint /\ prog.mask = "none") =>
+        /\ Res.gridFeasible =>
+              IF Minimising(prog) THEN ZD * Res.obj <= SC * Res.gridOpt + ZD * RowTol(0)
+                                  ELSE ZD * Res.obj >= SC * Res.gridOpt - ZD * RowTol(0)
+        /\ Res.gridFeasibleIn =>
+              IF Minimising(prog) THEN ZD * Res.obj >= SC * Res.gridOptIn - ZD * RowTol(0)
+                                  ELSE ZD * Res.obj <= SC * Res.gridOptIn + ZD * RowTol(0)
 PostStatus ==    \* integer models: solvable exactly when the grid has a feasible point
-    (prog.xint /\ prog.mask = "none") => ((Res.status = "ok") <=> Res.gridFeasible)
+    (prog.xint /\ prog.mask = "none") =>
+        /\ (Res.gridFeasible => Res.status = "ok")        \* a point feasible for the outer set is feasible
+        /\ (Res.status = "ok" => Res.gridFeasibleIn)      \* a solution is feasible for the inner set
 
 Verdict ==
     [tid |-> res.tid,
